@@ -140,7 +140,7 @@ fn build_base(base: &Base) -> (Vec<u8>, Vec<usize>) {
         Base::Coded { payload, gzip, chunked } => {
             let body = deflate(&payload.bytes(), *gzip);
             let framing = if *chunked {
-                Framing::Chunked(gen::ChunkPlan { sizes: vec![17, 300], styles: vec![], last: gen::ChunkStyle { hex: 0, zeros: 0, ext: 0 } })
+                Framing::Chunked(gen::ChunkPlan { sizes: vec![17, 300], styles: vec![], last: gen::ChunkStyle { hex: 0, zeros: 0, ext: 0 }, trailers: 0 })
             } else {
                 Framing::Length
             };
@@ -160,7 +160,7 @@ fn build_base(base: &Base) -> (Vec<u8>, Vec<usize>) {
             for _ in 0..*depth {
                 s.push_str("]}");
             }
-            let framing = if *chunked { Framing::Chunked(gen::ChunkPlan { sizes: vec![9], styles: vec![], last: gen::ChunkStyle { hex: 0, zeros: 0, ext: 0 } }) } else { Framing::Length };
+            let framing = if *chunked { Framing::Chunked(gen::ChunkPlan { sizes: vec![9], styles: vec![], last: gen::ChunkStyle { hex: 0, zeros: 0, ext: 0 }, trailers: 0 }) } else { Framing::Length };
             let b = build_response(200, &[("Content-Type".into(), b"application/json; charset=utf-8".to_vec())], &framing, 0, s.as_bytes());
             (b.wire, b.structural)
         }
